@@ -24,7 +24,12 @@ def shards(tier):
     q = tier == "quick"
     out = [{"name": f"n{n}-{i}", "n": n, "examples": (1500 if n <= 4 else 400) if q else (15000 if n <= 4 else 5000)}
            for n in (2, 3, 4, 5) for i in (1, 2)]
-    if not q:
+    if q:
+        # the search only becomes interesting from 4 candidates on: use the remaining cores there
+        out += [{"name": f"n4-{i}", "n": 4, "examples": 2500} for i in (3, 4, 5, 6)]
+        out += [{"name": f"n5-{i}", "n": 5, "examples": 800} for i in (3, 4, 5, 6)]
+        out += [{"name": f"n6-{i}", "n": 6, "examples": 150, "budget_s": 60} for i in (1, 2)]
+    else:
         out += [{"name": f"n6-{i}", "n": 6, "examples": 400, "budget_s": 2400} for i in (1, 2, 3, 4)]
     return out
 
